@@ -591,16 +591,30 @@ func (p c15) reinit(c *core.Ctx) {
 	usedOrd := map[string]bool{}
 	haveFile := false
 	n := 0
+	// every fifth case keeps its configuration in a JSON store (binder.NewViperBinder("json")) fed with JSON
+	// documents: sources merge there as they do in the default YAML store
+	useJSON := c.Rng.Intn(5) == 0
+	storeType := "yaml"
+	if useJSON {
+		storeType = "json"
+		c.Count("cases_with_a_json_store", 1)
+	}
 	newSource := func() *c15Source {
 		s := &c15Source{label: fmt.Sprintf("s%d", n), via: "add"}
 		n++
 		kinds := []string{"raw", "raw", "args", "ordered", "priority", "file", "file"}
+		if useJSON {
+			kinds = []string{"raw", "raw", "ordered", "priority"} // (documents in the store's format)
+		}
 		s.kind = kinds[c.Rng.Intn(len(kinds))]
 		if s.kind == "file" && haveFile {
 			s.kind = "raw"
 		}
 		s.tree = genTree(c, 0, s.kind == "args")
 		b, _ := yaml.Marshal(s.tree)
+		if useJSON {
+			b, _ = json.Marshal(s.tree)
+		}
 		switch s.kind {
 		case "raw":
 			s.ld = loader.NewRawLoader(b)
@@ -638,13 +652,39 @@ func (p c15) reinit(c *core.Ctx) {
 		return s
 	}
 	cfg := configure.NewConfigure()
-	cfg.SetBinder(binder.NewViperBinder("yaml"))
+	cfg.SetBinder(binder.NewViperBinder(storeType))
 	var all, applied []*c15Source
 	onTop := map[string]any{} // reading 1: every Initialize merges the whole sequence on top of the state
 	rounds := 2 + c.Rng.Intn(2)
 	var desc []string
 	overlap := false
+	// a source that has nothing to contribute yet when it is added (its backend is not ready, its file is not
+	// written yet) and yields its document from the last round on: it is asked again at every Initialize
+	var late *c15Source
+	var lateDoc []byte
+	if c.Rng.Intn(3) == 0 {
+		late = &c15Source{label: "late", via: "add", kind: "ordered", tree: genTree(c, 0, false)}
+		for {
+			late.ord = c.Rng.Intn(9) - 4
+			if !usedOrd[fmt.Sprint(late.kind, late.ord)] {
+				break
+			}
+		}
+		usedOrd[fmt.Sprint(late.kind, late.ord)] = true
+		lateDoc, _ = yaml.Marshal(late.tree)
+		if useJSON {
+			lateDoc, _ = json.Marshal(late.tree)
+		}
+		late.ld = world.NewLoader(1, "late", late.ord, nil, mon.NewLifecycle()).(configure.Loader)
+		cfg.AddLoaders(late.ld)
+		c.Count("cases_with_a_source_that_yields_its_document_later", 1)
+	}
 	for round := 0; round < rounds; round++ {
+		if late != nil && round == rounds-1 {
+			late.ld.(world.LoggedLoader).Core().Doc = lateDoc
+			all = append(all, late)
+			desc = append(desc, fmt.Sprintf("round %d: the source added empty before round 0 (order=%d) now yields %s", round, late.ord, canon(late.tree)))
+		}
 		k := 1 + c.Rng.Intn(3)
 		if round == 0 {
 			k = c.Rng.Intn(3) // possibly nothing before the first Initialize
@@ -660,7 +700,7 @@ func (p c15) reinit(c *core.Ctx) {
 		if round > 0 && c.Rng.Intn(3) == 0 {
 			// the binder is replaced at run time (another store): the next Initialize fills it from all sources in
 			// the loader sequence - nothing of the old store's content is owed to it
-			cfg.SetBinder(binder.NewViperBinder("yaml"))
+			cfg.SetBinder(binder.NewViperBinder(storeType))
 			onTop, applied = map[string]any{}, nil
 			desc = append(desc, fmt.Sprintf("round %d: binder replaced before Initialize", round))
 			c.Count("rounds_with_a_replaced_binder", 1)
